@@ -435,6 +435,19 @@ dispatch_block_perform(dispatch_block_flags_t flags, dispatch_block_t block)
 	return _dispatch_block_invoke_direct(&dbpds);
 }
 
+// A block object can be executed any number of times but leaves its group
+// on the first completion only. dbpd_performed is only ever compared with 0
+// and 1: stop counting above that so that it cannot wrap around to 1 again
+DISPATCH_ALWAYS_INLINE
+static inline bool
+_dispatch_block_first_completion(dispatch_block_private_data_t dbpd)
+{
+	if (os_atomic_load2o(dbpd, dbpd_performed, relaxed) > 1) {
+		return false;
+	}
+	return os_atomic_inc2o(dbpd, dbpd_performed, relaxed) == 1;
+}
+
 void
 _dispatch_block_invoke_direct(const struct dispatch_block_private_data_s *dbcpd)
 {
@@ -463,7 +476,7 @@ _dispatch_block_invoke_direct(const struct dispatch_block_private_data_s *dbcpd)
 	_dispatch_reset_priority_and_voucher(op, ov);
 out:
 	if ((atomic_flags & DBF_PERFORM) == 0) {
-		if (os_atomic_inc2o(dbpd, dbpd_performed, relaxed) == 1) {
+		if (_dispatch_block_first_completion(dbpd)) {
 			dispatch_group_leave(dbpd->dbpd_group);
 		}
 	}
@@ -490,7 +503,7 @@ _dispatch_block_sync_invoke(void *block)
 	_dispatch_reset_voucher(ov, 0);
 out:
 	if ((atomic_flags & DBF_PERFORM) == 0) {
-		if (os_atomic_inc2o(dbpd, dbpd_performed, relaxed) == 1) {
+		if (_dispatch_block_first_completion(dbpd)) {
 			dispatch_group_leave(dbpd->dbpd_group);
 		}
 	}
@@ -520,7 +533,7 @@ _dispatch_block_async_invoke2(dispatch_block_t b, unsigned long invoke_flags)
 		dbpd->dbpd_block();
 	}
 	if ((atomic_flags & DBF_PERFORM) == 0) {
-		if (os_atomic_inc2o(dbpd, dbpd_performed, relaxed) == 1) {
+		if (_dispatch_block_first_completion(dbpd)) {
 			dispatch_group_leave(dbpd->dbpd_group);
 		}
 	}
